@@ -73,6 +73,22 @@ func runC08(c *runCtx) error {
 		for _, q := range c08Queries {
 			base = append(base, c08Verify(b0, q))
 		}
+		// without any cache: does verification that starts at the reference's latest entry accept it?
+		fromTipOK := true
+		for i := len(w.Events) - 1; i >= 0; i-- {
+			if (w.Events[i].Kind == "ref" || w.Events[i].Kind == "prop") && w.Events[i].Ref == refMain {
+				func() {
+					defer func() {
+						if rec := recover(); rec != nil {
+							fromTipOK = false
+						}
+					}()
+					_, ferr := policy.NewPolicyVerifier(b0.m).VerifyRefFromEntry(context.Background(), refMain, b0.entryIDs[i])
+					fromTipOK = ferr == nil
+				}()
+				break
+			}
+		}
 		frameOK := true
 		type cfg struct {
 			name  string
@@ -133,7 +149,7 @@ func runC08(c *runCtx) error {
 			ct = append(ct, fmt.Sprintf("(%d, %s)", cf.kind, coqList(cf.obs)))
 			hc = append(hc, fmt.Sprintf("%s: %v", cf.name, cf.obs))
 		}
-		term := fmt.Sprintf("(C08 %s %s %s)", coqList(base), coqList(ct), coqBool(frameOK))
+		term := fmt.Sprintf("(C08 %s %s %s %s)", coqList(base), coqList(ct), coqBool(frameOK), coqBool(fromTipOK))
 		nFail := 0
 		for _, o := range base {
 			if strings.HasPrefix(o, "(VFail") {
@@ -141,7 +157,7 @@ func runC08(c *runCtx) error {
 			}
 		}
 		c.add(term, sideCase{Class: fmt.Sprintf("rejecting-verdicts-%d", nFail), Nontrivial: nFail > 0 || n > 8, Key: keyOf(fmt.Sprint(w.human()) + term),
-			Human: map[string]interface{}{"world": w.human(), "baseline(no cache)": base, "configurations": hc, "only_cache_ref_changed": frameOK}})
+			Human: map[string]interface{}{"world": w.human(), "baseline(no cache)": base, "configurations": hc, "only_cache_ref_changed": frameOK, "verification_from_the_tip_entry_accepts(no cache)": fromTipOK}})
 	}
 	return nil
 }
